@@ -1,5 +1,6 @@
 from __future__ import annotations
 
+import types
 import enum
 import inspect
 import logging
@@ -148,9 +149,10 @@ class WrappedField:
     @cached_property
     def is_optional(self):
         origin = get_origin(self.resolved_type)
-        if origin not in [Union, Optional]:
+        # `X | None` has the origin types.UnionType
+        if origin not in [Union, Optional, types.UnionType]:
             return False
-        if origin == Union:
+        if origin in [Union, types.UnionType]:
             args = get_args(self.resolved_type)
             return len(args) == 2 and NoneType in args
         return True
@@ -160,7 +162,10 @@ class WrappedField:
         if not self.is_container and not self.is_optional:
             raise ValueError("Field is not a container")
         if self.is_optional:
-            return get_args(self.resolved_type)[0]
+            # None can be written first (Union[None, X], None | X)
+            return next(
+                arg for arg in get_args(self.resolved_type) if arg is not NoneType
+            )
         else:
             try:
                 return get_args(self.resolved_type)[0]
